@@ -21,7 +21,13 @@ DIVS = [1, 2, 3, 4, 5, 6, 7, 8, 10, 12, 16, 24]
 MODES = ["voice", "staff", "auto"]
 MULTI_CONTAINERS = ["list", "list-nested", "tuple", "group", "group-nested", "score", "score-nested"]
 SINGLE_CONTAINERS = ["part", "list", "tuple", "group", "group-nested", "list-group", "score", "score-group"]
-DIR_KINDS = ["words", "loud", "cresc", "dir"]
+DIR_KINDS = ["words", "loud", "cresc", "dir", "pedal"]
+# order-preserving renumberings of the generated voices 1..3: gaps, not starting at 1, starting at 0
+VOICE_MAPS = [None, None, None, {1: 1, 2: 3, 3: 4}, {1: 2, 2: 3, 3: 5}, {1: 3, 2: 4, 3: 6}, {1: 0, 2: 1, 3: 2}, {1: 0, 2: 2, 3: 3}]
+# renumberings of the generated staves 1..2: a third staff, a gap, a part that starts on staff 2 or 3
+STAFF_MAPS = [None, None, None, None, {1: 1, 2: 3}, {1: 2, 2: 3}, {1: 3, 2: 1}]
+BARLINE_STYLES = ["light-heavy", "light-light", "dashed", "heavy-light"]
+EXTRA_STRUCTURAL = ("barline", "page", "system")
 
 
 def lcm(values):
@@ -201,17 +207,42 @@ def silence_part(ps):
     ps["notes"] = out
     ps["tuplets"] = []
     ps["slurs"] = []
+    ps["c15_extra"] = [x for x in ps.get("c15_extra", []) if x[0] != "beam"]
+
+
+def empty_part(ps):
+    """No note and no rest at all (a part that only has its bars, signatures, clefs and directions)."""
+    silence_part(ps)
+    ps["notes"] = []
 
 
 @st.composite
 def _decorate(draw, ps, staffless):
     """Missing staves, directions and a slur for one part (in place)."""
     # voice numbers with gaps / not starting at 1 (e.g. {1, 3} or {2}): an order-preserving renumbering
-    vmap = draw(st.sampled_from([None, None, {1: 1, 2: 3, 3: 4}, {1: 2, 2: 3, 3: 5}, {1: 3, 2: 4, 3: 6}]))
+    vmap = draw(st.sampled_from(VOICE_MAPS))
     if vmap is not None:
         for n in ps["notes"]:
             if n.get("voice") is not None:
                 n["voice"] = vmap.get(n["voice"], n["voice"])
+    # more voices than the generator's three (up to seven in one part, so also more than four on one
+    # staff): extra notes in new voices, placed on existing time points (merge_parts is slow per time point)
+    if draw(st.integers(0, 2)) == 0:
+        src = [n for n in ps["notes"] if n["kind"] == "note" and not n.get("tie_next") and not n.get("tie_prev")]
+        if src:
+            top = max(n["voice"] for n in ps["notes"])
+            for j in range(draw(st.sampled_from([1, 2, 3, 4, 4]))):
+                a = draw(st.sampled_from(src))
+                step, alter, octave = draw(G._pitch(G.profile(), j, set()))
+                ps["notes"].append({"id": "%s-v%d" % (a["id"], j), "kind": "note", "t": a["t"], "dur": a["dur"], "step": step, "alter": alter,
+                                    "octave": octave, "voice": top + 1 + j, "staff": a["staff"], "sym": a.get("sym")})
+    smap = draw(st.sampled_from(STAFF_MAPS))
+    if smap is not None:
+        for n in ps["notes"]:
+            if n.get("staff") is not None:
+                n["staff"] = smap.get(n["staff"], n["staff"])
+        for c in ps["clefs"]:
+            c[1] = smap.get(c[1], c[1])
     if staffless == "all":
         for n in ps["notes"]:
             n["staff"] = None
@@ -219,18 +250,19 @@ def _decorate(draw, ps, staffless):
         for n in ps["notes"]:
             if draw(st.integers(0, 3)) == 0:
                 n["staff"] = None
-    nstaves = max([n["staff"] or 1 for n in ps["notes"]] + [c[1] for c in ps["clefs"]] + [1])
+    staves_present = sorted(set([n["staff"] or 1 for n in ps["notes"]] + [c[1] for c in ps["clefs"]] + [1]))
     dirs = []
     times = sorted(set(n["t"] for n in ps["notes"]))
     for _ in range(draw(st.integers(0, 2))):
         t = draw(st.sampled_from(times))
         kind = draw(st.sampled_from(DIR_KINDS))
         end = None
-        if kind == "cresc":
+        if kind in ("cresc", "pedal"):
             later = [x for x in times if x > t] + [ps["end"]]
             end = draw(st.sampled_from(later))
-        text = {"words": draw(st.sampled_from(["dolce", "arco"])), "loud": draw(st.sampled_from(["p", "f", "mf"])), "cresc": "crescendo", "dir": "espressivo"}[kind]
-        staff = draw(st.sampled_from([None] + list(range(1, nstaves + 1))))
+        text = {"words": draw(st.sampled_from(["dolce", "arco"])), "loud": draw(st.sampled_from(["p", "f", "mf"])), "cresc": "crescendo", "dir": "espressivo",
+                "pedal": "sustain_pedal"}[kind]
+        staff = draw(st.sampled_from([None] + staves_present))
         dirs.append([t, end, kind, text, staff])
     ps["c15_dirs"] = dirs
     slurs = []
@@ -243,6 +275,31 @@ def _decorate(draw, ps, staffless):
             if same:
                 slurs.append([a["id"], draw(st.sampled_from(same))["id"]])
     ps["slurs"] = slurs
+    # further elements: the structural classes the documentation lists besides measures and signatures
+    # (Barline, Page, System: first part only) and non-structural ones (chord symbol, cadence, octave
+    # shift, beam: every part); all on existing time points
+    extra = []
+    bars = [m[0] for m in ps["measures"]]
+    for _ in range(draw(st.sampled_from([0, 0, 1, 2, 3]))):
+        kind = draw(st.sampled_from(["barline", "barline", "page", "system", "chordsymbol", "cadence", "octaveshift", "beam"]))
+        if kind == "barline":
+            extra.append([kind, draw(st.sampled_from(bars + [ps["end"]])), None, draw(st.sampled_from(BARLINE_STYLES)), None])
+        elif kind in ("page", "system"):
+            extra.append([kind, draw(st.sampled_from(bars)), ps["end"], draw(st.integers(1, 3)), None])
+        elif kind == "chordsymbol":
+            extra.append([kind, draw(st.sampled_from(times)), None, draw(st.sampled_from(["C", "F#", "Bb"])), draw(st.sampled_from(["major", "minor-seventh", ""]))])
+        elif kind == "cadence":
+            extra.append([kind, draw(st.sampled_from(times)), None, draw(st.sampled_from(["PAC", "IAC", "HC"])), None])
+        elif kind == "octaveshift":
+            t = draw(st.sampled_from(times))
+            extra.append([kind, t, draw(st.sampled_from([x for x in times if x > t] + [ps["end"]])), draw(st.sampled_from(["up", "down"])), draw(st.sampled_from([8, 15]))])
+        else:
+            cand = [n for n in ps["notes"] if n["kind"] == "note"]
+            a = draw(st.sampled_from(cand)) if cand else None
+            same = [n for n in cand if n["voice"] == a["voice"] and n["t"] == a["t"] + a["dur"]] if a else []
+            if same:
+                extra.append([kind, a["t"], same[0]["t"] + same[0]["dur"], [a["id"], same[0]["id"]], None])
+    ps["c15_extra"] = extra
 
 
 def _nest(draw, idx):
@@ -302,11 +359,26 @@ def merge_spec(draw, tier):
     silent = None
     if not tidy and draw(st.integers(0, 11)) == 0:
         silent = draw(st.integers(0, n - 1))
-        silence_part(parts[silent])
+        if draw(st.integers(0, 2)) == 0:
+            empty_part(parts[silent])
+        else:
+            silence_part(parts[silent])
+    # the bars of the later parts lie at the same musical times but need not carry the same numbers / names
+    if draw(st.integers(0, 2)) == 0:
+        for k in range(1, n):
+            off = draw(st.sampled_from([1, 10, 100]))
+            for m in parts[k]["measures"]:
+                m[2] = m[2] + off
+                m[3] = "p%d-%s" % (k, m[2])
+    # a restated (redundant) divisions value somewhere in a part: still one divisions value
+    for ps in parts:
+        if draw(st.integers(0, 5)) == 0:
+            ps["c15_restate_divs"] = draw(st.sampled_from([m[0] for m in ps["measures"]] + [ps["end"]]))
     for k, ps in enumerate(parts):
         if k != silent and not any(x["kind"] == "note" for x in ps["notes"]):
             rests = [x for x in ps["notes"] if x["kind"] == "rest"]
             _to_note(rests[0])
+            ps["c15_extra"] = [x for x in ps.get("c15_extra", []) if x[0] != "beam"]
         if tidy:
             tidy_part(ps)
     container = draw(st.sampled_from(MULTI_CONTAINERS))
@@ -315,7 +387,19 @@ def merge_spec(draw, tier):
         "container": container,
         "groups": draw(structure(container, n)),
         "reassign": reassign,
+        # how the mode is passed: by keyword, by position, or (voice is the documented default) not at all
+        "reassign_arg": draw(st.sampled_from(["keyword", "keyword", "positional"] + (["default", "default"] if reassign == "voice" else []))),
     }
+
+
+def call_args(spec):
+    """(args, kwargs) after the container for merge_parts."""
+    how = spec.get("reassign_arg", "keyword")
+    if how == "default":
+        return (), {}
+    if how == "positional":
+        return (spec["reassign"],), {}
+    return (), {"reassign": spec["reassign"]}
 
 
 @st.composite
@@ -335,7 +419,56 @@ DIR_CLASS = {
     "cresc": lambda text, staff: S.IncreasingLoudnessDirection(text, staff=staff),
     "dir": lambda text, staff: S.Direction(text, staff=staff),
 }
-DIR_NAME = {"words": "Words", "loud": "ConstantLoudnessDirection", "cresc": "IncreasingLoudnessDirection", "dir": "Direction"}
+DIR_CLASS["pedal"] = lambda text, staff: S.SustainPedalDirection(staff=staff, line=True)
+DIR_NAME = {"words": "Words", "loud": "ConstantLoudnessDirection", "cresc": "IncreasingLoudnessDirection", "dir": "Direction",
+            "pedal": "SustainPedalDirection"}
+EXTRA_NAME = {"barline": "Barline", "page": "Page", "system": "System", "chordsymbol": "ChordSymbol", "cadence": "Cadence",
+              "octaveshift": "OctaveShiftDirection", "beam": "Beam"}
+
+
+def add_extra(part, objs, x):
+    kind, t, end, a, b = x
+    if kind == "barline":
+        part.add(S.Barline(a), t)
+    elif kind == "page":
+        part.add(S.Page(a), t, end)
+    elif kind == "system":
+        part.add(S.System(a), t, end)
+    elif kind == "chordsymbol":
+        part.add(S.ChordSymbol(a, b), t)
+    elif kind == "cadence":
+        part.add(S.Cadence(a), t)
+    elif kind == "octaveshift":
+        part.add(S.OctaveShiftDirection(a, b), t, end)
+    elif kind == "beam":
+        # as the MusicXML importer does: the beam is added at its start, the notes are appended afterwards
+        beam = S.Beam(id="beam-" + a[0])
+        part.add(beam, t)
+        for nid in a:
+            beam.append(objs[nid])
+    else:
+        raise ValueError(kind)
+
+
+def extra_key(obj):
+    """What identifies an extra element in a merged part (class, content, start, end)."""
+    name = type(obj).__name__
+    end = -1 if obj.end is None else obj.end.t
+    if name == "Barline":
+        content = obj.style
+    elif name in ("Page", "System"):
+        content = obj.number
+    elif name == "ChordSymbol":
+        content = (obj.root, obj.kind)
+    elif name == "Cadence":
+        content = obj.text
+    elif name == "OctaveShiftDirection":
+        content = (obj.shift_type, obj.shift_size)
+    elif name == "Beam":
+        content = tuple(n.id for n in obj.notes)
+    else:
+        content = None
+    return (name, content, obj.start.t, end)
 
 
 def _group(children, symbol="bracket"):
@@ -349,10 +482,14 @@ def _group(children, symbol="bracket"):
 def build(spec):
     """Return (container, parts in depth-first order)."""
     kind = spec["container"]
-    score, parts, _ = B.build_score({"parts": spec["parts"], "groups": spec.get("groups")})
-    for ps, part in zip(spec["parts"], parts):
+    score, parts, objs = B.build_score({"parts": spec["parts"], "groups": spec.get("groups")})
+    for ps, part, ob in zip(spec["parts"], parts, objs):
         for (t, end, k, text, staff) in ps.get("c15_dirs", []):
             part.add(DIR_CLASS[k](text, staff), t, end)
+        for x in ps.get("c15_extra", []):
+            add_extra(part, ob, x)
+        if ps.get("c15_restate_divs") is not None:
+            part.set_quarter_duration(ps["c15_restate_divs"], ps["divs"][0][1])
     single = len(parts) == 1
     if kind.startswith("score") and not (single and kind == "score-group"):
         return score, parts
